@@ -83,3 +83,7 @@ package pclog
 //@   ensures atomic: acquires(b.mx) == old(acquires(b.mx)) + 1
 //@   ensures !held(b.mx)
 //@   assigns entries(b.observers)
+
+// C20: lock discipline of the log buffer
+//@ field pclog.ProcessLogBuffer.buffer guarded_by=mx
+//@ field pclog.ProcessLogBuffer.observers guarded_by=mx
